@@ -144,6 +144,30 @@ def rule_fs_access_through_constructors(chk, rid):
     chk.floor(rid, n, 15, "file-system access sites in FileStore")
 
 
+def names_of(e):
+    return {x.id for x in ast.walk(e) if isinstance(x, ast.Name)}
+
+
+def is_normalised_parts(fn, e):
+    """e is (a local defined once as) a list of the key's components with '' and '.' dropped"""
+    if isinstance(e, ast.Name):
+        defs = [s for s in body_walk(fn) if isinstance(s, ast.Assign) and any(U(t) == e.id for t in s.targets)]
+        return len(defs) == 1 and is_normalised_parts(fn, defs[0].value)
+    if isinstance(e, ast.ListComp) and len(e.generators) == 1:
+        g = e.generators[0]
+        if not (isinstance(g.iter, ast.Call) and call_tail(g.iter) == "split" and g.iter.args and U(g.iter.args[0]) == "'/'"):
+            return False
+        dropped = set()
+        for c in g.ifs:
+            for t in ast.walk(c):
+                if isinstance(t, ast.Compare) and len(t.ops) == 1 and isinstance(t.ops[0], (ast.NotIn, ast.NotEq)):
+                    for k in ast.walk(t.comparators[0]):
+                        if isinstance(k, ast.Constant) and isinstance(k.value, str):
+                            dropped.add(k.value)
+        return {"", "."} <= dropped
+    return False
+
+
 def guard_kinds(repo, ci, fn, keyp, depth=2):
     """Which escape kinds does fn refuse for parameter `keyp` by a real raise?  {'dotdot','absolute','root'}.
     A guard is a test whose literals mention the key (or a local derived from it) and whose true edge raises on all paths;
@@ -180,11 +204,15 @@ def guard_kinds(repo, ci, fn, keyp, depth=2):
                 kinds.add("absolute")
             if "relative_to" in txt:
                 kinds |= {"dotdot", "absolute"}
-            if txt.startswith("not ") and ("parts" in txt or "allow_root" in txt):
-                kinds.add("root")
-        if any(isinstance(d, ast.UnaryOp) and isinstance(d.op, ast.Not) and ("allow_root" in U(d) or "parts" in U(d))
-               for d in __import__("sa.core", fromlist=["flatten_boolop"]).flatten_boolop(n.ast, ast.Or)):
-            kinds.add("root")
+        for d in __import__("sa.core", fromlist=["flatten_boolop"]).flatten_boolop(n.ast, ast.Or):
+            if isinstance(d, ast.UnaryOp) and isinstance(d.op, ast.Not) and ("allow_root" in U(d) or names_of(d.operand) & derived):
+                # `not (parts or allow_root)` / `not parts`: the operand tested for emptiness must be the *normalised* component list
+                ops = __import__("sa.core", fromlist=["flatten_boolop"]).flatten_boolop(d.operand, ast.Or)
+                ops = [o for o in ops if U(o) != "allow_root"]
+                if ops and all(is_normalised_parts(fn, o) for o in ops):
+                    kinds.add("root")
+                elif ops:
+                    kinds.add("root-raw")
     if depth > 0:
         for c in calls_in(fn):
             if call_recv(c) == "self" and c.args and isinstance(c.args[0], ast.Name) and c.args[0].id in derived:
@@ -221,7 +249,9 @@ def rule_constructors_confine(chk, rid):
         for k in sorted(need):
             what = {"dotdot": "keys with a '..' component", "absolute": "keys with a leading '/'", "root": "the root key"}[k]
             chk.ob(rid, f"{fs.qual}.{mn}", k in kinds, f"{what} are refused before a path is built" if k in kinds else
-                   f"{what} are not refused: the path built from the key leaves the store directory", fn, mod, key=f"guard:{k}")
+                   (f"the root guard tests the raw key text, not its components with '' and '.' dropped: '.', './.' also address the root and pass"
+                    if k == "root" and "root-raw" in kinds else f"{what} are not refused: the path built from the key leaves the store directory"),
+                   fn, mod, key=f"guard:{k}")
 
 
 def rule_resource_taint(chk, rid):
